@@ -289,6 +289,13 @@ func (p *Packer) packWalkFn(root, src, dst string, tarW *tar.Writer, meta *Meta,
 				return filepath.Walk(resolved.absTarget, p.packWalkFn(root, resolved.absTarget, path, tarW, meta, ignoreRules))
 			}
 
+			// Only regular files can be copied into the archive. Anything else
+			// (fifo, socket, device) is left out, as checkFileMode does for such
+			// files inside the source directory; opening a fifo would block.
+			if !resolved.info.Mode().IsRegular() {
+				return nil
+			}
+
 			// Dereference this symlink by updating the header with the target file
 			// details and set writeBody to true so the body will be written.
 			header.Typeflag = tar.TypeReg
